@@ -171,6 +171,7 @@ def _task(args):
 
     def rec(ds, ref, program, d, tags=frozenset()):
         st['states'] += 1
+        common.gc_tick(50)
         check_state(ds, ref, program, st, viols, tags)
         if d == depth and len(samples) < 1:
             samples.append({'program': program, 'laws_checked': st['law_instances']})
